@@ -18,7 +18,9 @@ def instances(tier, rng):
     insts = []
     for u in us:
         cfgs = [{}, {"mode": "node"}, {"wt": "float", "num": 1, "den": 2},
-                {"opt": {"optimize_with_greedy": False}}]
+                {"opt": {"optimize_with_greedy": False}},
+                # fractional data answered by the model itself (no greedy shortcut): path weights are real numbers
+                {"wt": "float", "num": 1, "den": 2, "opt": {"optimize_with_greedy": False}}]
         extra = [{"opt": {"use_min_gen_set_lowerbound": True}},
                  {"opt": {"use_min_gen_set_lowerbound": True, "use_min_gen_set_lowerbound_partition_constraints": True}},
                  {"opt": {"optimize_with_guessed_weights": True}},
